@@ -2,8 +2,8 @@
 """Undo "extract helper" refactorings before the rules look at the tree.
 
 A function or method that does not exist in the reference tree (nfcsa/ref_locals.json lists every unit of the tree the rules were
-written against) and that is simple enough -- positional parameters, no generator, no nested definitions, `return` only as its last
-statement -- is expanded at each of its call sites inside the same module:
+written against) and that is simple enough -- positional parameters, no generator, no nested definitions, every `return` the last
+statement of its branch once `if c: return a` + REST is read as if/else (any shape of returns at a `return H(...)` site) -- is expanded at each of its call sites inside the same module:
 
 * a helper whose body is a single `return E` is substituted as an expression wherever it is called;
 * otherwise a call that is a whole statement (`H(...)`, `x = H(...)`, `return H(...)`) is replaced by the helper's statements, the
@@ -42,6 +42,12 @@ def _new_helpers(module_name, tree):
     return out
 
 
+def is_new_unit(module_name, key):
+    """True when the reference tree has no function / method `key` ('Class.method') in the module."""
+    ref = alpha.reference().get(module_name)
+    return bool(ref) and '__units__' in ref and key not in ref['__units__']
+
+
 def _kind(fn, tree):
     """'function' | 'method' | 'static' | None (not handled)."""
     decos = [d.id if isinstance(d, ast.Name) else getattr(d, 'attr', None) for d in fn.decorator_list]
@@ -70,8 +76,6 @@ def _inlinable(fn):
     for i, st in enumerate(body):
         for x in ast.walk(st):
             if isinstance(x, (ast.Yield, ast.YieldFrom, ast.Await, ast.FunctionDef, ast.AsyncFunctionDef, ast.ClassDef, ast.Lambda, ast.Global, ast.Nonlocal)):
-                return False
-            if isinstance(x, ast.Return) and not (x is st and i == len(body) - 1):
                 return False
             if isinstance(x, ast.Call) and isinstance(x.func, ast.Name) and x.func.id == fn.name:
                 return False
@@ -162,6 +166,88 @@ def _is_call_of(node, fn, kind):
     return isinstance(node.func, ast.Attribute) and node.func.attr == fn.name and isinstance(node.func.value, (ast.Name, ast.Attribute))
 
 
+def _has_return(st):
+    return any(isinstance(x, ast.Return) for x in ast.walk(st))
+
+
+def _terminates(stmts):
+    if not stmts:
+        return False
+    last = stmts[-1]
+    if isinstance(last, (ast.Return, ast.Raise)):
+        return True
+    return isinstance(last, ast.If) and _terminates(last.body) and _terminates(last.orelse)
+
+
+def _tailify(stmts):
+    """Rewrite a helper body so that every `return` is the last statement of its branch (`if c: return a` + REST becomes
+    `if c: return a else: REST`); None when a return sits inside a loop, try or with."""
+    out = []
+    for i, st in enumerate(stmts):
+        if isinstance(st, ast.Return):
+            return out + [st]
+        if isinstance(st, ast.Raise):
+            return out + [st]
+        if not _has_return(st):
+            out.append(st)
+            continue
+        if not isinstance(st, ast.If):
+            return None
+        rest = stmts[i + 1:]
+        if _terminates(st.body) or not rest:
+            body, orelse = _tailify(st.body), _tailify(st.orelse + rest)
+        elif _terminates(st.orelse):
+            body, orelse = _tailify(st.body + rest), _tailify(st.orelse)
+        else:
+            return None
+        if body is None or orelse is None:
+            return None
+        new = ast.If(test=st.test, body=body, orelse=orelse)
+        return out + [ast.copy_location(new, st)]
+    return out + [ast.Return(value=ast.Constant(value=None))]
+
+
+def _value_stmts(val, how, target):
+    val = val if val is not None else ast.Constant(value=None)
+    if how == 'assign':
+        return [ast.Assign(targets=[copy.deepcopy(t) for t in target], value=val)]
+    return [] if isinstance(val, (ast.Name, ast.Constant)) else [ast.Expr(value=val)]
+
+
+def _loop_form(body, how, target):
+    """PRE; for ...: (... return X ...); POST  at a call site `t = H(...)` is the loop with `t = X; break` for each return and POST as
+    the loop's else branch (POST runs exactly when the loop ends without a return).  None when the helper has another shape."""
+    idx = [i for i, st in enumerate(body) if _has_return(st)]
+    if not idx or not isinstance(body[idx[0]], ast.For):
+        return None
+    i = idx[0]
+    loop, post = body[i], body[i + 1:]
+    if loop.orelse or any(isinstance(x, (ast.Break,)) for x in ast.walk(loop)):
+        return None
+    for x in ast.walk(loop):
+        if x is not loop and isinstance(x, (ast.For, ast.While)) and _has_return(x):
+            return None
+    post_t = _tailify(post) if post else [ast.Return(value=ast.Constant(value=None))]
+    if post_t is None:
+        return None
+
+    def conv_tail(stmts):
+        last = stmts[-1]
+        if isinstance(last, ast.Return):
+            stmts[-1:] = _value_stmts(last.value, how, target) or [ast.Pass()]
+        elif isinstance(last, ast.If):
+            conv_tail(last.body)
+            conv_tail(last.orelse)
+    conv_tail(post_t)
+
+    class _R(ast.NodeTransformer):
+        def visit_Return(self, node):
+            return _value_stmts(node.value, how, target) + [ast.Break()]
+    loop = _R().visit(loop)
+    loop.orelse = [s_ for s_ in post_t if not isinstance(s_, ast.Pass)] or []
+    return body[:i] + [loop]
+
+
 def _expand(fn, kind, call, how, target=None):
     b = _bind(fn, kind, call)
     if b is None:
@@ -170,25 +256,47 @@ def _expand(fn, kind, call, how, target=None):
     body = [copy.deepcopy(s) for s in _body(fn)]
     sub = _Subst(mapping)
     body = [sub.visit(s) for s in body]
-    last = body[-1]
-    if isinstance(last, ast.Return):
-        val = last.value if last.value is not None else ast.Constant(value=None)
-        if how == 'expr':
-            body[-1] = ast.Expr(value=val)
-            if isinstance(val, (ast.Name, ast.Constant)):
-                body.pop()
-        elif how == 'assign':
-            body[-1] = ast.Assign(targets=[copy.deepcopy(t) for t in target], value=val)
-        else:
-            body[-1] = ast.Return(value=val)
-    else:
-        if how == 'assign':
-            body.append(ast.Assign(targets=[copy.deepcopy(t) for t in target], value=ast.Constant(value=None)))
-        elif how == 'return':
+    tail = _tailify(body)
+    if tail is None and how != 'return':
+        body = _loop_form(body, how, target)
+        if body is None:
+            return None
+    elif tail is None:
+        # `return H(...)`: a return anywhere in the helper is a return of the caller
+        if not _terminates(body):
             body.append(ast.Return(value=ast.Constant(value=None)))
+    else:
+        body = tail
+        if how != 'return':
+            def conv(stmts):
+                last = stmts[-1]
+                if isinstance(last, ast.Return):
+                    val = last.value if last.value is not None else ast.Constant(value=None)
+                    if how == 'assign':
+                        stmts[-1] = ast.Assign(targets=[copy.deepcopy(t) for t in target], value=val)
+                    elif isinstance(val, (ast.Name, ast.Constant)):
+                        stmts.pop()
+                        if not stmts:
+                            stmts.append(ast.Pass())
+                    else:
+                        stmts[-1] = ast.Expr(value=val)
+                elif isinstance(last, ast.If):
+                    conv(last.body)
+                    conv(last.orelse)
+                    if len(last.orelse) == 1 and isinstance(last.orelse[0], ast.Pass):
+                        last.orelse = []
+            conv(body)
+            if body and isinstance(body[-1], ast.Pass) and len(body) > 1:
+                body.pop()
     out = _fold_ifs(prefix + body)
-    out = [s for s in out if not (isinstance(s, ast.Assign) and len(s.targets) == 1 and isinstance(s.targets[0], ast.Name)
-                                  and isinstance(s.value, ast.Name) and s.value.id == s.targets[0].id)]
+    def selfassign(s):
+        return isinstance(s, ast.Assign) and len(s.targets) == 1 and isinstance(s.targets[0], ast.Name) \
+            and isinstance(s.value, ast.Name) and s.value.id == s.targets[0].id
+    out = [s for s in out if not selfassign(s)]
+    for s in out:
+        for lst in list(_stmt_lists(s)):
+            if any(selfassign(x) for x in lst):
+                lst[:] = [x for x in lst if not selfassign(x)] or [ast.Pass()]
     for s in out:
         for x in ast.walk(s):
             if hasattr(x, 'lineno') or isinstance(x, (ast.stmt, ast.expr)):
